@@ -1,5 +1,5 @@
 (* C03 — PKCE binding cannot be bypassed or downgraded.  Statements only. *)
-From FositeModel Require Import Base.Str Model.Scope Model.Core Model.Flows Proofs.StepProps Proofs.C03Proofs.
+From FositeModel Require Import Base.Str Model.Scope Model.Core Model.Flows Proofs.StepProps Proofs.C03Proofs Cases.CasesHist Cases.Monitors Proofs.MonitorC03.
 
 (* per attempt: with a stored PKCE record carrying a challenge, redemption succeeds only with a well-formed
    verifier that transforms to that challenge under the stored method; without a record only when PKCE is
@@ -75,3 +75,16 @@ Theorem C03_binding_holds_after_any_history :
   (az_method a = "S256" \/ ((az_method a = "plain" \/ az_method a = "") /\ cf_pkce_plain cfg = true)).
 Proof. exact pkce_binding. Qed.
 Print Assumptions C03_binding_holds_after_any_history.
+
+(* the clauses of the history monitor that do not read its tracker accept the model's answer in every state: only S256,
+   or plain / no method where plain is enabled, is accepted for a challenge at the authorization endpoint (code and hybrid
+   flow); a token request under a grant type that no handler owns yields nothing *)
+Theorem C03_monitor_challenge_method_clause_holds_of_the_model : forall cfg m s a pr,
+  fst (fst (judge_C03 cfg m (OAuthorize a) (snd (step cfg s (OAuthorize a))) pr)) = None.
+Proof. exact judge_C03_authorize_sound. Qed.
+Print Assumptions C03_monitor_challenge_method_clause_holds_of_the_model.
+
+Theorem C03_monitor_unowned_grant_type_clause_holds_of_the_model : forall cfg m s auth pr,
+  fst (fst (judge_C03 cfg m (OTokenOther auth) (snd (step cfg s (OTokenOther auth))) pr)) = None.
+Proof. exact judge_C03_other_grant_sound. Qed.
+Print Assumptions C03_monitor_unowned_grant_type_clause_holds_of_the_model.
